@@ -274,3 +274,69 @@ def props_of_error(info, err):
             if k == kind and i == idx:
                 return props
     return info.props
+
+
+def failures_for(res, prop):
+    """verification failures that belong to property `prop`"""
+    out = []
+    for info in res.infos:
+        for err in res.fn_errors.get(info.key, []):
+            props = props_of_error(info, err)
+            if prop in props:
+                out.append({'fn': info.key, 'unit': info.unit, 'file': info.file, 'clause': err['clause'], 'message': err['message'],
+                            'line': err['line'], 'rendered': err['rendered'], 'props': props,
+                            'clause_text': clause_text(info, err['clause'])})
+    return out
+
+
+def clause_text(info, clause):
+    if clause is None:
+        return None
+    for (k, i, props, text) in info.clauses:
+        if (k, i) == tuple(clause):
+            return '%s %s' % (k, text)
+    return None
+
+
+def fn_belongs(info, prop):
+    if prop in info.props:
+        return True
+    return any(prop in (p or []) for (_, _, p, _) in info.clauses)
+
+
+TRUST_PATTERNS = [
+    (r'assume_specification\s*(?:<[^\[]*>)?\s*\[\s*([^\]]+?)\s*\]', 'assume_specification %s'),
+    (r'#\[verifier::external_body\]\s*(?:#\[[^\]]*\]\s*)*pub\s+(?:broadcast\s+)?proof\s+fn\s+(\w+)', 'axiom (external_body proof fn) %s'),
+    (r'#\[verifier::external_body\]\s*(?:#\[[^\]]*\]\s*)*pub\s+fn\s+(\w+)', 'external_body fn %s'),
+    (r'#\[verifier::external_type_specification\][^;{]*?struct\s+(\w+)', 'external_type_specification %s'),
+    (r'#\[verifier::external_trait_specification\]\s*pub\s+trait\s+(\w+)', 'external_trait_specification %s'),
+    (r'\buninterp\s+spec\s+fn\s+(\w+)', 'uninterpreted spec fn %s'),
+    (r'\b(assume|admit)\s*\(', 'PROOF HOLE %s('),
+]
+
+
+def trusted_base(units):
+    out = []
+    for u in units:
+        text = u.get('prelude', '')
+        for rx, fmt in TRUST_PATTERNS:
+            for m in re.finditer(rx, text):
+                out.append('[%s] ' % u['name'] + fmt % ' '.join(m.group(1).split()))
+        for k, v in u.get('fns', {}).items():
+            if v.get('trusted'):
+                out.append('[%s] contract assumed, body not verified (external_body): %s' % (u['name'], k))
+            for txt in [v.get('body_start', '')] + [i.get('text', '') for i in v.get('inserts', [])] + list(v.get('loops', {}).values()):
+                if re.search(r'\b(assume|admit)\s*\(', txt or ''):
+                    out.append('[%s] PROOF HOLE in ghost text of %s' % (u['name'], k))
+    return out
+
+
+def prelude_lemmas(units):
+    """proof fns of the preludes that carry a verified body (counted as obligations)"""
+    out = []
+    for u in units:
+        text = u.get('prelude', '')
+        for m in re.finditer(r'((?:#\[[^\]]*\]\s*)*)(?:pub\s+)?(?:broadcast\s+)?proof\s+fn\s+(\w+)', text):
+            if 'external_body' not in m.group(1):
+                out.append('%s::%s' % (u['name'], m.group(2)))
+    return out
